@@ -1,6 +1,194 @@
 import OtelVerif.Common.Line
+import OtelVerif.Model.C09Fmt
 import OtelVerif.Model.C10
-/-! driver for C10 (stub) -/
-def main : IO UInt32 := do
-  IO.eprintln "drv_c10: not built yet"
-  return 2
+/-! driver for C10: model `c10-lifecycle`
+
+ops (see harness/c10/service_test.go):
+  conn / pipe                 as for C09
+  ext <id> <deps|->           extension (order of the service's extension list)
+  shared <id>                 receiver id whose per-signal instances wrap one inner component (sharedcomponent)
+  failstart <label> / failstop <label>
+  run                         → obs start ok|fail ; obs stops … ; obs stoperr … ; obs shutdown ok|err
+`obs new …` (result of service.New) is printed before the first failstart/failstop/run op, or at `end`.
+`tr ev <start|stop|istart|istop> <label> <ok|fail>` lines of the implementation are monitored with `C10.check`.
+-/
+open OtelVerif OtelVerif.Line OtelVerif.C09 OtelVerif.C09.Fmt OtelVerif.C10
+
+namespace OtelVerif.Drivers.C10
+
+def compTok : Comp → String
+  | .node n => nodeTok n
+  | .ext e => s!"x{e}"
+  | .inner i => s!"s{i}"
+
+def parseComp (t : String) : Option Comp :=
+  match t.toList with
+  | 'x' :: rest => (String.ofList rest).toNat?.map Comp.ext
+  | 's' :: rest => (String.ofList rest).toNat?.map Comp.inner
+  | _ => (parseNode t).map Comp.node
+
+/-- `computeOrder` fails: a dependency that is not a configured service extension -/
+def extMissing (exts : List Ext) : Bool := exts.any (fun e => e.deps.any (fun d => !(exts.any (fun x => x.id == d))))
+
+/-- `computeOrder` fails: the dependency graph has a cycle (peeling: an extension is released once all its dependencies are) -/
+def extCyclic (exts : List Ext) : Bool :=
+  let step (done : List Nat) : List Nat :=
+    done ++ (exts.filter (fun e => !(done.contains e.id) && e.deps.all (fun d => done.contains d))).map (·.id)
+  let rec it : Nat → List Nat → List Nat
+    | 0, d => d
+    | k + 1, d => it k (step d)
+  !(exts.all (fun e => (it exts.length []).contains e.id))
+
+structure S where
+  cfg : Cfg := { pipes := [], conns := [] }
+  exts : List Ext := []
+  shared : Option Nat := none
+  failS : List String := []
+  failT : List String := []
+  newEmitted : Bool := false
+  implNew : Option String := none
+  starts : List (Comp × Bool) := []     -- implementation, reversed; includes inner
+  stops : List (Comp × Bool) := []      -- implementation, reversed; includes inner
+  implStart : Option Bool := none
+  implShutdown : Option Bool := none
+  ran : Bool := false
+  bad : Option String := none
+
+def newResult (s : S) : String :=
+  match build s.cfg with
+  | some .connector => "err=connector"
+  | some .cycle => "err=cycle"
+  | none => if extMissing s.exts then "err=extmissing" else if extCyclic s.exts then "err=extcycle" else "ok"
+
+def emitNew (s : S) : S × List String :=
+  if s.newEmitted then (s, []) else ({ s with newEmitted := true }, ["obs new " ++ newResult s])
+
+def innerComps (s : S) : List Comp :=
+  match s.shared with
+  | some i => if (nodes s.cfg).any (fun n => match n with | .recv _ j => j == i | _ => false) then [Comp.inner i] else []
+  | none => []
+
+def sysOf (s : S) : Sys := { cfg := s.cfg, exts := s.exts, gorderStart := [], gorderStop := [], eorder := [] }
+
+def obsList (head : String) (l : List String) : String :=
+  let l := sortStr l
+  if l.isEmpty then s!"obs {head} 0" else s!"obs {head} {l.length} " ++ " ".intercalate l
+
+def handler : Handler S where
+  init := {}
+  onOp := fun s toks =>
+    match toks with
+    | ["conn", i, pairs] =>
+      match i.toNat?, parsePairs pairs with
+      | some i, some ps => ({ s with cfg := { s.cfg with conns := s.cfg.conns ++ [{ id := i, supp := ps }] } }, [])
+      | _, _ => (s, ["obs bad-op"])
+    | ["pipe", sg, name, r, p, e] =>
+      match sg.toNat?.bind Sig.ofNat?, name.toNat?, parseIds r, parseIds p, parseIds e with
+      | some sg, some name, some r, some p, some e =>
+        ({ s with cfg := { s.cfg with pipes := s.cfg.pipes ++ [{ id := { sig := sg, name := name }, recv := r, procs := p, exps := e }] } }, [])
+      | _, _, _, _, _ => (s, ["obs bad-op"])
+    | ["ext", i, deps] =>
+      match i.toNat?, parseIds deps with
+      | some i, some d => ({ s with exts := s.exts ++ [{ id := i, deps := d }] }, [])
+      | _, _ => (s, ["obs bad-op"])
+    | ["shared", i] =>
+      match i.toNat? with
+      | some i => ({ s with shared := some i }, [])
+      | none => (s, ["obs bad-op"])
+    | ["failstart", l] => let (s, o) := emitNew s; ({ s with failS := s.failS ++ [l] }, o)
+    | ["failstop", l] => let (s, o) := emitNew s; ({ s with failT := s.failT ++ [l] }, o)
+    | ["run"] =>
+      -- the observations of the run are printed at `end` (the prediction of which instance reports a failing
+      -- shared inner Shutdown takes the implementation's stop order as an input)
+      let (s, o) := emitNew s
+      ({ s with ran := true }, o)
+    | _ => (s, ["obs bad-op"])
+  onObs := fun s toks =>
+    match toks with
+    | ["tr", "ev", kind, label, res] =>
+      match parseComp label, (if res = "ok" then some true else if res = "fail" then some false else none) with
+      | some c, some ok =>
+        if kind = "start" || kind = "istart" then { s with starts := (c, ok) :: s.starts }
+        else if kind = "stop" || kind = "istop" then { s with stops := (c, ok) :: s.stops }
+        else { s with bad := some s!"unknown event kind {kind}" }
+      | _, _ => { s with bad := some s!"unparsable event {label} {res}" }
+    | ["obs", "new", r] => { s with implNew := some r }
+    | ["obs", "start", r] => { s with implStart := some (r = "ok") }
+    | ["obs", "shutdown", r] => { s with implShutdown := some (r = "ok") }
+    | _ => s
+  onEnd := fun s =>
+    let (s, newLines) := emitNew s
+    let isInner (c : Comp) : Bool := match c with | .inner _ => true | _ => false
+    let sys := sysOf s
+    let stAll := s.starts.reverse
+    let spAll := s.stops.reverse
+    let st := stAll.filter (fun e => !isInner e.1)
+    let sp := spAll.filter (fun e => !isInner e.1)
+    let o : Outcome := { starts := st, startOk := s.implStart.getD true, stops := sp, stopOk := s.implShutdown.getD true }
+    let stc := st.map (·.1)
+    let spc := sp.map (·.1)
+    let clause (name : String) (b : Bool) (sg : String) : Option String := if b then none else some s!"prop {name}=FAIL sig={sg}"
+    let lifecycle : List (Option String) :=
+      if !s.ran then
+        -- service.New failed (or was never run): nothing may have been started
+        [clause "rejected" (stAll.isEmpty && spAll.isEmpty) "C10/reject/lifecycle-call-on-rejected-configuration"]
+      else [
+        clause "start_once" (startsOnce sys stc) "C10/start/started-twice-or-unknown-component",
+        clause "start_downstream_first" (startsDownstreamFirst sys stc) "C10/start/started-before-a-component-it-sends-to",
+        clause "start_ext_first" (startsExtFirst sys stc) "C10/start/pipeline-component-before-an-extension",
+        clause "start_dep_first" (startsDepFirst sys stc) "C10/start/extension-before-its-dependency",
+        clause "stop_exactly_once" (stopsExactlyOnce sys spc) "C10/stop/not-exactly-once",
+        clause "stop_upstream_first" (stopsUpstreamFirst sys spc) "C10/stop/stopped-before-a-component-that-sends-to-it",
+        clause "stop_ext_last" (stopsExtLast sys spc) "C10/stop/extension-before-a-pipeline-component",
+        clause "stop_dependent_first" (stopsDependentFirst sys spc) "C10/stop/dependency-before-its-dependent",
+        clause "failed_start_last" (failedStartIsLast st) "C10/failure/component-started-after-a-failed-start",
+        clause "results" ((o.startOk == allOk stAll) && (o.stopOk == allOk spAll)) "C10/failure/reported-result-differs-from-component-results",
+        clause "started_all" (startedAll sys o) "C10/start/successful-start-skipped-a-component" ]
+    -- shared inner component
+    let sharedProps : List (Option String) :=
+      match s.shared, s.ran with
+      | some i, true =>
+        let inner := Comp.inner i
+        let insts := (nodes s.cfg).filter (fun n => match n with | .recv _ j => j == i | _ => false)
+        if insts.isEmpty then [] else
+        let E := edges s.cfg
+        let stA := stAll.map (·.1)
+        let spA := spAll.map (·.1)
+        let down := C09.dedup (insts.flatMap (compSucc E))
+        [ clause "shared_start_once" (stA.count inner ≤ 1 &&
+              (stA.count inner == 1 || !(stAll.any (fun e => e.2 && insts.any (fun n => Comp.node n == e.1)))))
+            "C10/shared/inner-start-count",
+          clause "shared_stop_once" (spA.count inner == 1) "C10/shared/inner-stop-count",
+          clause "shared_start_after_downstream"
+            (!(stA.contains inner) || down.all (fun a => beforeB stA (Comp.node a) inner))
+            "C10/shared/inner-started-before-downstream-of-a-sibling-instance",
+          clause "shared_stop_before_downstream" (down.all (fun a => beforeB spA inner (Comp.node a)))
+            "C10/shared/inner-stopped-after-a-downstream-component" ]
+      | _, _ => []
+    let fails := (lifecycle ++ sharedProps).filterMap id
+    -- model's prediction of the order-independent observations
+    let runLines : List String :=
+      if !s.ran then [] else
+      let comps := (allComps sys ++ innerComps s).map compTok
+      -- every component exists, so a start fails iff a failure was injected anywhere; every component is shut
+      -- down exactly once, so exactly the injected shutdown failures are reported — plus, for a failing shared
+      -- inner Shutdown, the instance whose Shutdown ran it (stopOnce: the first instance stopped; from the log)
+      let startRes := if s.failS.any (fun l => comps.contains l) then "fail" else "ok"
+      let isInst (c : Comp) : Bool := match c, s.shared with | .node (.recv _ j), some i => j == i | _, _ => false
+      let carrier : List String :=
+        match s.shared with
+        | some i => if s.failT.contains (compTok (Comp.inner i)) then ((spAll.map (·.1)).filter isInst).take 1 |>.map compTok else []
+        | none => []
+      -- (the harness's outer wrapper of a shared instance has no failure switch of its own for Shutdown)
+      let instToks := ((allComps sys).filter isInst).map compTok
+      let stopErrs := C09.dedup ((s.failT.filter (fun l => comps.contains l && !(instToks.contains l))) ++ carrier)
+      [s!"obs start {startRes}", obsList "stops" comps, obsList "stoperr" stopErrs,
+        if stopErrs.isEmpty then "obs shutdown ok" else "obs shutdown err"]
+    match s.bad with
+    | some b => newLines ++ runLines ++ [s!"prop protocol=FAIL sig=C10/harness/unparsable {b}"]
+    | none => newLines ++ runLines ++ (if fails.isEmpty then ["prop lifecycle=ok"] else fails)
+
+end OtelVerif.Drivers.C10
+
+def main : IO UInt32 :=
+  runMulti [("c10-lifecycle", run OtelVerif.Drivers.C10.handler)]
